@@ -276,3 +276,83 @@ Corollary score_link_above_floor au quality now e c s c' :
   wf_linkb c = true -> exp_okb e = true -> l_conn c = true ->
   score_link au quality now e c = Some (s, c') -> ((-1)%float <? s)%float = true.
 Proof. intros. apply fle0_gt_m1. eapply score_link_nonneg; eauto. Qed.
+(** ---- no score is NaN (disconnected links included: their base is -1) ------------------------- *)
+Lemma bra_opp prec emax s m e l :
+  SpecFloat.binary_round_aux prec emax (negb s) m e l = SFopp (SpecFloat.binary_round_aux prec emax s m e l).
+Proof.
+  unfold SpecFloat.binary_round_aux.
+  destruct (SpecFloat.shr_fexp prec emax m e l) as (mrs', e').
+  destruct (SpecFloat.shr_fexp prec emax _ e' SpecFloat.loc_Exact) as (mrs'', e'').
+  destruct (SpecFloat.shr_m mrs''); try reflexivity.
+  now destruct (Zle_bool e'' (emax - prec)).
+Qed.
+
+Lemma opp_mul_l x y : (- x * y)%float = (- (x * y))%float.
+Proof.
+  apply Prim2SF_inj. rewrite mul_spec, !opp_spec, mul_spec.
+  destruct (Prim2SF x) as [sx|sx| |sx mx ex], (Prim2SF y) as [sy|sy| |sy my ey]; cbn; try reflexivity;
+  try (now destruct sx, sy).
+  replace (xorb (negb sx) sy) with (negb (xorb sx sy)) by now destruct sx, sy.
+  apply bra_opp.
+Qed.
+
+Lemma is_nan_opp x : PrimFloat.is_nan (- x)%float = PrimFloat.is_nan x.
+Proof. rewrite !is_nan_equiv, opp_equiv. apply is_nan_Bopp. Qed.
+
+Lemma chain_nonneg B W q capm gate :
+  fle 0%float B -> fle B HB -> fle 0%float W -> fle W 1%float -> fle 0%float q -> fle q Q_HI ->
+  fle 0%float capm -> fle capm 1%float -> fle 0%float gate -> fle gate 1%float ->
+  fle 0%float (B * W * q * capm * gate)%float /\ fle 0%float (B * W * capm * gate)%float.
+Proof.
+  intros B0 B1 W0 W1 Q0 Q1 C0 C1 G0 G1.
+  destruct (mul_nn B W HB 1%float) as (X0 & X1); [fin_c | assumption..|].
+  split.
+  - destruct (mul_nn (B * W)%float q (HB * 1)%float Q_HI) as (Y0 & Y1); [fin_c | assumption..|].
+    destruct (mul_nn (B * W * q)%float capm (HB * 1 * Q_HI)%float 1%float) as (Z0 & Z1); [fin_c | assumption..|].
+    destruct (mul_nn (B * W * q * capm)%float gate (HB * 1 * Q_HI * 1)%float 1%float) as (U0 & U1);
+      [fin_c | assumption..|]. exact U0.
+  - destruct (mul_nn (B * W)%float capm (HB * 1)%float 1%float) as (Z0 & Z1); [fin_c | assumption..|].
+    destruct (mul_nn (B * W * capm)%float gate (HB * 1 * 1)%float 1%float) as (U0 & U1);
+      [fin_c | assumption..|]. exact U0.
+Qed.
+
+Theorem score_link_not_nan au quality now e c s c' :
+  wf_linkb c = true -> exp_okb e = true ->
+  score_link au quality now e c = Some (s, c') -> PrimFloat.is_nan s = false.
+Proof.
+  intros Hw He E. destruct (l_conn c) eqn:Hc.
+  { apply (fle_not_nan_r 0%float). eapply score_link_nonneg; eauto. }
+  revert E. unfold score_link.
+  destruct (skipped now c); [discriminate|].
+  destruct (au && in_flight_cap_exceeded c); [discriminate|].
+  assert (Hp : wf_pubb c = true) by (unfold wf_linkb in Hw; now apply andb_true_iff in Hw).
+  unfold get_score. rewrite Hc. cbn [negb].
+  change (f64_of_i32 (-1)) with (PrimFloat.opp 1%float).
+  destruct (phase_weight_range c) as (W0 & W1).
+  destruct (gate_range (au && (l_weak c || l_lossdeg c))) as (G0 & G1).
+  set (gate := if au && (l_weak c || l_lossdeg c) then GATED_LINK_PENALTY else 1%float) in *.
+  assert (Hcc : 0 <= l_cct c <= u64_max) by (apply wf_pubb_iff in Hp; tauto).
+  destruct (soft_cap_range c Hcc) as (C0' & C1).
+  assert (C0 : fle 0%float (cc_soft_cap_multiplier c)).
+  { apply (fle_tr _ CC_SOFT_CAP_FLOOR); [reflexivity | | fle_c | exact C0'].
+    apply (fle_fin_between CC_SOFT_CAP_FLOOR _ 1%float); [fin_c | fin_c | exact C0' | exact C1]. }
+  set (capm := cc_soft_cap_multiplier c) in *.
+  assert (B0 : fle 0%float 1%float) by fle_c. assert (B1 : fle 1%float HB) by fle_c.
+  destruct quality; cbn [negb].
+  - destruct (cached_quality c now e) as (q, c1) eqn:Eq.
+    destruct (cached_quality_range c now e q c1 Hw He Eq) as (Rq & _).
+    apply q_range_iff in Rq. destruct Rq as (Q0' & Q1).
+    assert (Q0 : fle 0%float q).
+    { apply (fle_tr _ Q_LO); [reflexivity | | fle_c | exact Q0'].
+      apply (fle_fin_between Q_LO _ Q_HI); [fin_c | fin_c | exact Q0' | exact Q1]. }
+    intros E. injection E as E _. subst s.
+    change (-1)%float with (PrimFloat.opp 1%float).
+    rewrite !opp_mul_l, is_nan_opp.
+    apply (fle_not_nan_r 0%float).
+    now destruct (chain_nonneg 1%float (phase_weight c) q capm gate).
+  - intros E. injection E as E _. subst s.
+    change (-1)%float with (PrimFloat.opp 1%float).
+    rewrite !opp_mul_l, is_nan_opp.
+    apply (fle_not_nan_r 0%float).
+    destruct (chain_nonneg 1%float (phase_weight c) 1%float capm gate) as (_ & H); try assumption; try fle_c.
+Qed.
